@@ -113,8 +113,14 @@ def rule_next(ck):
                 if m_ is not None and m_ is not g and writes_idx(m_, depth + 1):
                     return True
         return False
-    incs = [d for d in idx_defs if isinstance(d.ast, ast.AugAssign)]
-    resets = [d for d in idx_defs if not isinstance(d.ast, ast.AugAssign)]
+    def _is_inc(a_):
+        # `self._idx += k` and its spelling `self._idx = self._idx + k`
+        return isinstance(a_, ast.AugAssign) or (
+            isinstance(a_, ast.Assign) and isinstance(a_.value, ast.BinOp) and isinstance(a_.value.op, ast.Add) and
+            ((u(a_.value.left) == 'self._idx' and isinstance(const_value(a_.value.right), int) and const_value(a_.value.right) > 0) or
+             (u(a_.value.right) == 'self._idx' and isinstance(const_value(a_.value.left), int) and const_value(a_.value.left) > 0)))
+    incs = [d for d in idx_defs if _is_inc(d.ast)]
+    resets = [d for d in idx_defs if not _is_inc(d.ast)]
     for n in cfg.nodes:
         a = n.ast
         if n.kind in ('test', 'for', 'while') or a is None or isinstance(a, (ast.FunctionDef, ast.ClassDef)):
